@@ -461,6 +461,17 @@ def F45(fil):
                                                     f"the union of the stored components {np.flatnonzero(union).tolist()}")
 
 
+def F46(fil):
+    from sigpyproc.core import kernels
+    n, nbins, tsamp = 2**23 + 2**21, 10, 6.4e-5
+    x = np.zeros(n, dtype=np.float32)
+    x[1::10] = 1.0  # one pulse every 10 samples, always in phase bin 1 of 10
+    fold_ar, count_ar = np.zeros(nbins * 8, dtype=np.float32), np.zeros(nbins * 8, dtype=np.int32)
+    kernels.fold(x, fold_ar, count_ar, np.zeros(1, dtype=np.int32), 0, tsamp, 10 * tsamp, 0.0, n, n, 1, nbins, 8, 1, 0)
+    occupied = [np.flatnonzero(row).tolist() for row in fold_ar.reshape(8, nbins)]
+    return any(o != [1] for o in occupied), f"pulse every 10 samples folded at period 10*tsamp over {n} samples: occupied bins per sub-integration {occupied}"
+
+
 ALL = {k: v for k, v in globals().items() if k.startswith("F") and k[1:].isdigit()}
 
 
